@@ -24,7 +24,7 @@ CASE_TIMEOUT = {"quick": 150, "thorough": 400}
 
 
 def budget(tier):
-    return 500 if tier == "quick" else 5000
+    return 800 if tier == "quick" else 8000
 
 
 def gen_case(rng, tier, k):
